@@ -1098,7 +1098,7 @@ class Interp:
                 if f:
                     return ("local", f)
             # generic parameter / dynamic dispatch on the receiver
-            if re.fullmatch(r"_*[A-Z][A-Za-z0-9]{0,2}", tsegs[-1]) and tsegs[-1] not in self.idx.local_types and len(tsegs) == 1 \
+            if re.fullmatch(r"_*[A-Z][A-Za-z0-9]?", tsegs[-1]) and tsegs[-1] not in self.idx.local_types and len(tsegs) == 1 \
                     and tsegs[-1] not in ("Vec", "Box", "Rc", "Arc"):
                 return ("dynamic",)
             m = self.models.lookup_trait(trait, desc["method"], selfty)
@@ -1134,8 +1134,13 @@ class Interp:
 
     def type_name_of(self, v):
         """Runtime type name segments of a value, for trait dispatch."""
-        while isinstance(v, Ref):
-            v = v.get()
+        while True:
+            if isinstance(v, Ref):
+                v = v.get()
+            elif isinstance(v, Agg) and v.kind == "struct" and v.ty == "Pin":
+                v = v.fields[0]
+            else:
+                break
         if isinstance(v, Agg) and v.kind == "struct":
             return path_segments(v.ty)
         if isinstance(v, Adt):
